@@ -39,10 +39,41 @@ def eff_exponent(desc):
     return e
 
 
-def build(desc):
+def build(desc, assembly=None):
+    """`assembly` (optional) = [kind, seed]: how the same tensors come to be in one network.  'plain' is the constructor
+    (tensor ids 0..n-1 in insertion order); the other kinds produce the id orders real histories produce:
+    'select_or' = a leading part selected out of a padded network (high ids) combined with the rest (low ids),
+    'tids' = add_tensor(tid=...) with a permutation of ids.  The denoted value does not depend on it."""
     d = dict(desc)
     d["exponent"] = eff_exponent(desc)
-    return G.build_network(d), d["exponent"]
+    tn = G.build_network(d)
+    kind, aseed = assembly or ("plain", 0)
+    n = tn.num_tensors
+    if kind == "plain" or n < 2:
+        return tn, d["exponent"]
+    Q = qtn()
+    ts = list(tn)
+    rng = np.random.default_rng(aseed)
+    if kind == "select_or":
+        k = int(rng.integers(1, n))
+        npad = int(rng.integers(1, 4))
+        pad = [Q.Tensor(np.ones(()), (), tags="__pad__") for _ in range(npad)]
+        big = Q.TensorNetwork(pad + [t.copy() for t in ts[:k]])
+        for t in list(big.tensor_map.values())[npad:]:
+            t.add_tag("__head__")
+        head = big.select("__head__")
+        head.drop_tags("__head__")
+        out = head | Q.TensorNetwork([t.copy() for t in ts[k:]])
+    else:
+        perm = rng.permutation(n).tolist()
+        out = Q.TensorNetwork([])
+        for t, tid in zip(ts, perm):
+            out.add_tensor(t.copy(), tid=int(tid))
+    out.exponent = tn.exponent
+    return out, d["exponent"]
+
+
+s_assembly = st.one_of(st.just(["plain", 0]), st.tuples(st.sampled_from(["select_or", "tids"]), st.integers(0, 10**6)).map(list))
 
 
 def tol_of(desc):
@@ -121,7 +152,7 @@ def s_contract_all(draw, tier):
         "route": draw(st.sampled_from(["contract", "xor_all", "contract_ellipsis", "contract_inplace", "contract_tags_all",
                                        "tensor_contract", "matmul"])),
         "optimize": draw(st.sampled_from(OPTS)), "strip": draw(st.booleans()),
-        "preserve_tensor": draw(st.booleans()), "pseed": draw(st.integers(0, 10**6)),
+        "preserve_tensor": draw(st.booleans()), "pseed": draw(st.integers(0, 10**6)), "assembly": draw(s_assembly),
     }
 
 
@@ -132,7 +163,7 @@ def zero_valued(ref, mag):
 def run_contract_all(case):
     Q = qtn()
     desc = case["net"]
-    tn, expo = build(desc)
+    tn, expo = build(desc, case.get("assembly"))
     n = tn.num_tensors
     hyper = G.net_is_hyper(desc)
     out = case["output"]
@@ -224,8 +255,8 @@ def s_contract_tags(draw, tier):
     return {
         "net": desc, "tags": sel, "which": draw(st.sampled_from(["any", "all", "!any", "!all"])),
         "route": draw(st.sampled_from(["contract_tags", "contract", "xor", "contract_tags_", "contract_"])),
-        "strip": draw(st.booleans()), "optimize": draw(st.sampled_from(["default", "greedy", "path"])),
-        "pseed": draw(st.integers(0, 10**6)),
+        "strip": draw(st.booleans()), "optimize": draw(st.sampled_from(["default", "greedy", "path", "tree"])),
+        "pseed": draw(st.integers(0, 10**6)), "assembly": draw(s_assembly),
     }
 
 
@@ -234,7 +265,7 @@ def run_contract_tags(case):
     desc = case["net"]
     if not case["tags"]:
         raise Reject("no tags in network")
-    tn, expo = build(desc)
+    tn, expo = build(desc, case.get("assembly"))
     want = tuple(G.net_outer(desc))
     ref, mag = G.ref_value(desc, want)
     tol = tol_of(desc)
@@ -247,6 +278,11 @@ def run_contract_tags(case):
         kw["optimize"] = "greedy"
     elif case["optimize"] == "path" and nsel >= 1:
         kw["optimize"] = random_path(nsel, case["pseed"])
+    elif case["optimize"] == "tree" and nsel >= 2:
+        # an explicit tree for the selected part, built the way a user would: from tn.select(...) of the same tags
+        sel = tn.select(case["tags"], which if route.startswith("contract_tags") else "any")
+        with rejecting(ValueError, tag="tree:"):
+            kw["optimize"] = sel.contraction_tree(optimize="greedy", output_inds=None)
     before = tn.copy()
     with rejecting(ValueError, tag="no-match:"):
         if nsel == 0:
